@@ -107,6 +107,10 @@ def render(model):
         out.append("/**\n * CtxBoxed CGlue trait object for trait %s with context.\n */\ntemplate<typename CGlueT, typename CGlueCtx>\nusing %sBaseCtxBox = %sBase<CBox<CGlueT>, CGlueCtx>;\n\n" % (tr, tr, tr))
         out.append("/**\n * Boxed CGlue trait object for trait %s with a [`CArc`](cglue::arc::CArc) reference counted context.\n */\ntemplate<typename CGlueT, typename CGlueC>\nusing %sBaseArcBox = %sBaseCtxBox<CGlueT, CArc<CGlueC>>;\n\n" % (tr, tr, tr))
         out.append("/**\n * Opaque Boxed CGlue trait object for trait %s with a [`CArc`](cglue::arc::CArc) reference counted context.\n */\nusing %sArcBox = %sBaseArcBox<void, void>;\n\n" % (tr, tr, tr))
+    if cbgen.holder(model) and model["objects"][0]["cont"] == "Box" and model["objects"][0]["ctx"] == "Arc":
+        # a user structure that holds an object by value (known finding F14: the tool appends the CGlueTraitObj
+        # specialisations at the end of the file, after this implicit instantiation)
+        out.append("/**\n * A user structure that holds an object by value.\n */\nstruct UserHolder {\n    %sArcBox held;\n    int32_t n;\n};\n\n" % model["objects"][0]["trait"])
     out.append("extern \"C\" {\n\n")
     if foreign:
         out.append("/**\n * An unrelated user function.\n */\nint32_t user_function_Container(FooVtbl v, BarRetTmp_x w);\n\n")
